@@ -292,6 +292,9 @@ func buildIntrinsics() map[string]Intrinsic {
 			}
 			return nil
 		}
+		// natively: one P and no GC, so that a sync.Pool hands the object just put to the next Get; the engine's pool
+		// model (mode 0) does that anyway
+		t[p+"vGhostPoolDeterministic"] = func(m *Machine, fr *Frame, fn *ssa.Function, a []Value) Value { return nil }
 		t[p+"vGhostPoolMode"] = func(m *Machine, fr *Frame, fn *ssa.Function, a []Value) Value {
 			m.pool.mode = int(m.concreteInt(fr, a[0].(*Term), "pool mode"))
 			return nil
